@@ -1,4 +1,129 @@
-import NriModel.Basic
-/-! Property theorems for C04 — placeholder until the model is written. -/
+import NriModel.Lemmas.ResultView
+/-!
+# C04 — each plugin sees the container exactly as the earlier plugins left it
+
+Model `Nri.Result`; specification `Nri.Overlay.overlayContainer` (the NRI-level reading of an
+adjustment: entries whose key is removed or set again go, the set entries are appended;
+scalars given replace, scalars not given stay).
+
+`viewsAlong` lists the states in which the plugins of a chain are called, i.e. what each is
+shown. Proved for every original container, every chain and every position:
+the first plugin is shown the runtime's original (`C04_first_create`, `C04_first_update`);
+plugin *i* is shown the original overlaid with the adjustments of plugins 0 … i−1 in order
+(`C04_create`); in update requests the resources shown change only by applied updates of the
+container being updated (`C04_update_step`).
+
+Not proved (partial): the last sentence of the property — that the view also equals the
+overlay of the *combined reply so far* on the original — is the reply/view simulation of C03;
+it is evaluated on every generated chain by the C03/C04 correspondence runs.
+-/
 namespace Nri.Props.C04
+open Nri Nri.Api Nri.Result Nri.Ledger Nri.Overlay
+
+/-- the adjustment part of each chain element (`none` for an absent response or adjustment) -/
+def adjOf : Plugin × Option Response → Option Adjustment
+  | (_, some r) => r.adjust
+  | (_, none) => none
+
+/-- **First plugin, creation.** The first plugin is shown the container the runtime
+    submitted (nil sections normalised to empty ones, which protobuf does not distinguish). -/
+theorem C04_first_create (c0 : Container) (x) (rest) :
+    ((viewsAlong Quirks.fixed (initCreate c0) (x :: rest)).head?.map (·.view)) =
+      some { c0 with resources := normRes c0.resources } := by
+  obtain ⟨p, r⟩ := x
+  cases r with
+  | none => rfl
+  | some r =>
+    simp only [viewsAlong]
+    cases apply Quirks.fixed (initCreate c0) p r <;> rfl
+
+/-- **First plugin, update.** The first plugin is shown the resources the runtime asked for. -/
+theorem C04_first_update (id : Cid) (req : Resources) (x) (rest) :
+    ((viewsAlong Quirks.fixed (initUpdate id req) (x :: rest)).head?.map (·.reqRes)) = some (normRes req) := by
+  obtain ⟨p, r⟩ := x
+  cases r with
+  | none => rfl
+  | some r =>
+    simp only [viewsAlong]
+    cases apply Quirks.fixed (initUpdate id req) p r <;> rfl
+
+/-- **Every position, creation.** The state in which the `i`-th plugin of a chain is called
+    shows the starting view overlaid, in order, with the adjustments of the plugins before it. -/
+theorem C04_create (rs : List (Plugin × Option Response)) :
+    ∀ (st : State) (id : Cid), st.kind = .create id →
+    ∀ (i : Nat) (s : State), (viewsAlong Quirks.fixed st rs)[i]? = some s →
+      s.view = overlayAll st.view ((rs.take i).map adjOf) := by
+  induction rs with
+  | nil => intro st id _ i s h; simp [viewsAlong] at h
+  | cons x rest ih =>
+    intro st id hk i s h
+    obtain ⟨p, r⟩ := x
+    cases r with
+    | none =>
+      simp only [viewsAlong] at h
+      cases i with
+      | zero => simp at h; subst h; rfl
+      | succ n =>
+        simp at h
+        have := ih st id hk n s h
+        simpa [overlayAll, adjOf] using this
+    | some r =>
+      simp only [viewsAlong] at h
+      cases h1 : apply Quirks.fixed st p r with
+      | error e =>
+        rw [h1] at h
+        cases i with
+        | zero => simp at h; subst h; rfl
+        | succ n => simp at h
+      | ok st1 =>
+        rw [h1] at h
+        cases i with
+        | zero => simp at h; subst h; rfl
+        | succ n =>
+          simp at h
+          have hk1 : st1.kind = .create id := by rw [apply_kind _ st st1 p r h1]; exact hk
+          have := ih st1 id hk1 n s h
+          rw [this, apply_view_create st st1 p r id hk h1]
+          simp only [List.take_succ_cons, List.map_cons, overlayAll, List.foldl_cons, adjOf]
+          rfl
+
+/-- **C04 for a whole creation request**: from the collector's initial state. -/
+theorem C04_create_request (c0 : Container) (rs : List (Plugin × Option Response)) (i : Nat) (s : State)
+    (h : (viewsAlong Quirks.fixed (initCreate c0) rs)[i]? = some s) :
+    s.view = overlayAll { c0 with resources := normRes c0.resources } ((rs.take i).map adjOf) :=
+  C04_create rs (initCreate c0) c0.id rfl i s h
+
+/-- **Update requests, per applied update.** The resources shown to later plugins change
+    exactly when an update of the container being updated is applied, and then to the
+    previous ones overlaid with that update. -/
+theorem C04_update_step (st st1 : State) (p : Plugin) (u : Update) (r : Resources) (id : Cid)
+    (hk : st.kind = .update id) (hu : u.resources = some r)
+    (hg : getUpdate Quirks.fixed st p u = .ok st1) (o : Owners)
+    (hc : claimAllPartial u.containerId p st1.owners (updSets Quirks.fixed st1 u) = (o, none)) :
+    ∃ st', update1 Quirks.fixed st p u = .ok st' ∧
+      st'.reqRes = (if u.containerId = id then overlayRes st.reqRes r r.pids else st.reqRes) := by
+  rcases update1_cases Quirks.fixed st p u with ⟨e', hg', _⟩ | ⟨st1', hg', h2⟩
+  · rw [hg] at hg'; cases hg'
+  · rw [hg] at hg'; cases hg'
+    rcases h2 with ⟨o', hc', hu'⟩ | ⟨o', e', hc', _⟩
+    · refine ⟨_, hu', ?_⟩
+      have hk1 : st1.kind = .update id := by rw [(getUpdate_owners _ st st1 p u hg).2]; exact hk
+      have hr1 : st1.reqRes = st.reqRes := (getUpdate_view _ st st1 p u hg).2.1
+      simp only [updData, hu, setEntryRes, updBase, isOwn, hk1, updPids, Quirks.fixed]
+      by_cases hid : u.containerId = id
+      · simp [hid, hr1]
+      · have hid' : ¬ id = u.containerId := fun h => hid h.symm
+        simp [hid, hid', hr1]
+    · rw [hc] at hc'; cases hc'
+
+/-! ### the hypotheses are satisfiable -/
+
+-- third plugin of a chain: sees p0's annotation removed by p1 and p1's mount
+example :
+    ((viewsAlong Quirks.fixed (initCreate { id := str "c0", annotations := [(str "orig", str "x")] })
+      [(str "10-a", some { adjust := some { annotations := [(str "k", str "v")] } }),
+       (str "20-b", some { adjust := some { annotations := [(str "-k", [])], mounts := [{ destination := str "/m" }] } }),
+       (str "30-c", some { })])[2]?.map fun s => (s.view.annotations, s.view.mounts.map (·.destination)))
+    = some ([(str "orig", str "x")], [str "/m"]) := by decide
+
 end Nri.Props.C04
